@@ -20,6 +20,12 @@ pub proof fn lemma_flush_bits(f: Seq<bool>)
         }
     }
 }
+/// token i's flag is where the reader will look for it: in the text of its (finished) line, or among the pending flags of the running line
+pub open spec fn rmi_tok_ok(ts: Seq<RawToken>, st: RmiSt, lines: Seq<Seq<u8>>, i: int) -> bool {
+    let p = line_segs(ts, i + 1) - 1;
+    is_dup(ts, i) || (if ts[i].dst_line < st.line { ts[i].is_range == bit_at(rmi_bits(lines[ts[i].dst_line as int]), p) }
+                      else { ts[i].dst_line == st.line && 0 <= p < st.flags.len() && ts[i].is_range == st.flags[p] })
+}
 /// the writer's state after k tokens, read back
 pub open spec fn rmi_inv(ts: Seq<RawToken>, k: int) -> bool {
     let st = rmi_after(ts, k); let lines = split_seq(st.out, 59u8);
@@ -28,13 +34,7 @@ pub open spec fn rmi_inv(ts: Seq<RawToken>, k: int) -> bool {
     &&& lines.last().len() == 0
     &&& (forall|l: int| 0 <= l < lines.len() ==> rmi_valid(#[trigger] lines[l]))
     &&& st.flags.len() == (if k > 0 { line_segs(ts, k) } else { 0 })
-    //  tokens on finished lines: the text holds their flag
-    &&& (forall|i: int| 0 <= i < k && !is_dup(ts, i) && ts[i].dst_line < st.line ==>
-            (#[trigger] ts[i]).is_range == bit_at(rmi_bits(lines[ts[i].dst_line as int]), line_segs(ts, i + 1) - 1))
-    //  tokens on the running line: the pending flags hold it
-    &&& (forall|i: int| 0 <= i < k && !is_dup(ts, i) && ts[i].dst_line == st.line ==>
-            0 <= line_segs(ts, i + 1) - 1 < st.flags.len() && (#[trigger] ts[i]).is_range == st.flags[line_segs(ts, i + 1) - 1])
-    &&& (!st.any ==> forall|i: int| 0 <= i < k ==> !(#[trigger] ts[i]).is_range)
+    &&& (forall|i: int| 0 <= i < k ==> #[trigger] rmi_tok_ok(ts, st, lines, i))
 }
 pub proof fn lemma_line_segs_pos(ts: Seq<RawToken>, k: int)
     requires 0 < k <= ts.len()
@@ -44,8 +44,26 @@ pub proof fn lemma_line_segs_pos(ts: Seq<RawToken>, k: int)
     if is_dup(ts, k - 1) { lemma_line_segs_pos(ts, k - 1); }
     else if k - 1 > 0 && ts[k - 1].dst_line == ts[k - 2].dst_line { lemma_line_segs_pos(ts, k - 1); }
 }
-pub proof fn lemma_rmi_step_inv(ts: Seq<RawToken>, k: int)
-    requires 0 <= k < ts.len(), sorted_tokens(ts), rmi_inv(ts, k)
+pub open spec fn no_range_before(ts: Seq<RawToken>, k: int) -> bool { forall|i: int| 0 <= i < k ==> !(#[trigger] ts[i]).is_range }
+/// the key is absent only if no token is a range token
+pub proof fn lemma_rmi_any(ts: Seq<RawToken>, k: int)
+    requires 0 <= k <= ts.len()
+    ensures !rmi_after(ts, k).any ==> no_range_before(ts, k)
+    decreases k
+{
+    if k > 0 {
+        lemma_rmi_any(ts, k - 1);
+        let st = rmi_after(ts, k - 1);
+        assert(rmi_after(ts, k) == rmi_step(ts, k - 1, st));
+        if !rmi_after(ts, k).any {
+            assert(!st.any);
+            if is_dup(ts, k - 1) { assert(ts[k - 1] == ts[k - 2]); }
+            assert forall|i: int| 0 <= i < k implies !(#[trigger] ts[i]).is_range by { if i < k - 1 { assert(no_range_before(ts, k - 1)); } }
+        }
+    }
+}
+pub proof fn lemma_rmi_step_newline(ts: Seq<RawToken>, k: int)
+    requires 0 <= k < ts.len(), sorted_tokens(ts), rmi_inv(ts, k), ts[k].dst_line != rmi_after(ts, k).line
     ensures rmi_inv(ts, k + 1)
 {
     let st = rmi_after(ts, k); let lines = split_seq(st.out, 59u8);
@@ -54,56 +72,75 @@ pub proof fn lemma_rmi_step_inv(ts: Seq<RawToken>, k: int)
     assert(st2 == rmi_step(ts, k, st));
     lemma_rmi_line(ts, k);
     lemma_rmi_line(ts, k + 1);
-    if k > 0 { assert(tle(tkey(ts[k - 1]), tkey(ts[k]))); lemma_line_segs_pos(ts, k); }
-    if t.dst_line != st.line {
-        // the running line is finished: its digits (or nothing), then the line breaks
-        let d = t.dst_line - st.line;
-        assert(d > 0);
-        let fl = rmi_flush(st);
-        lemma_flush_bits(st.flags);
-        lemma_split_append_free(st.out, fl, 59u8);
-        let l1 = lines.drop_last().push(lines.last() + fl);
-        assert(lines.last() + fl =~= fl);
-        assert(split_seq(st.out + fl, 59u8) == l1);
-        lemma_split_semis(st.out + fl, d);
-        let lines2 = l1 + empties(d);
-        assert(st.out + fl + semis(d) =~= (st.out + fl) + semis(d));
-        assert(!is_dup(ts, k)) by { if k > 0 { assert(ts[k].dst_line != ts[k - 1].dst_line); } }
-        assert(st2.out == st.out + fl + semis(d));
-        assert(split_seq(st2.out, 59u8) == lines2);
-        assert(lines2.len() == st.line + 1 + d);
-        assert(lines2.last().len() == 0);
-        assert(st2.flags =~= seq![t.is_range]);
-        assert(line_segs(ts, k + 1) == 1);
-        assert forall|l: int| 0 <= l < lines2.len() implies rmi_valid(#[trigger] lines2[l]) by {
-            if l < st.line { assert(lines2[l] == lines[l]); } else if l == st.line { assert(lines2[l] == fl); } else { assert(lines2[l].len() == 0); }
-        }
-        assert forall|i: int| 0 <= i < k + 1 && !is_dup(ts, i) && ts[i].dst_line < st2.line implies
-            (#[trigger] ts[i]).is_range == bit_at(rmi_bits(lines2[ts[i].dst_line as int]), line_segs(ts, i + 1) - 1) by {
-            assert(i < k);
+    if k > 0 { assert(tle(tkey(ts[k - 1]), tkey(ts[k]))); }
+    // the running line is finished: its digits (or nothing), then the line breaks
+    let d = t.dst_line - st.line;
+    assert(d > 0);
+    let fl = rmi_flush(st);
+    lemma_flush_bits(st.flags);
+    lemma_split_append_free(st.out, fl, 59u8);
+    let l1 = lines.drop_last().push(lines.last() + fl);
+    assert(lines.last() + fl =~= fl);
+    assert(split_seq(st.out + fl, 59u8) == l1);
+    lemma_split_semis(st.out + fl, d);
+    let lines2 = l1 + empties(d);
+    assert(st.out + fl + semis(d) =~= (st.out + fl) + semis(d));
+    assert(!is_dup(ts, k)) by { if k > 0 { assert(ts[k].dst_line != ts[k - 1].dst_line); } }
+    assert(st2.out == st.out + fl + semis(d));
+    assert(split_seq(st2.out, 59u8) == lines2);
+    assert(lines2.len() == st.line + 1 + d);
+    assert(lines2.last().len() == 0);
+    assert(st2.flags =~= seq![t.is_range]);
+    assert(line_segs(ts, k + 1) == 1);
+    assert forall|l: int| 0 <= l < lines2.len() implies rmi_valid(#[trigger] lines2[l]) by {
+        if l < st.line { assert(lines2[l] == lines[l]); } else if l == st.line { assert(lines2[l] == fl); } else { assert(lines2[l].len() == 0); }
+    }
+    assert forall|i: int| 0 <= i < k + 1 implies #[trigger] rmi_tok_ok(ts, st2, lines2, i) by {
+        if i < k {
+            assert(rmi_tok_ok(ts, st, lines, i));
             assert(tle(tkey(ts[i]), tkey(ts[k - 1])));
-            if ts[i].dst_line < st.line { assert(lines2[ts[i].dst_line as int] == lines[ts[i].dst_line as int]); }
-            else { assert(ts[i].dst_line == st.line); assert(lines2[st.line] == fl); assert(bit_at(st.flags, line_segs(ts, i + 1) - 1) == st.flags[line_segs(ts, i + 1) - 1]); }
-        }
-        assert forall|i: int| 0 <= i < k + 1 && !is_dup(ts, i) && ts[i].dst_line == st2.line implies
-            0 <= line_segs(ts, i + 1) - 1 < st2.flags.len() && (#[trigger] ts[i]).is_range == st2.flags[line_segs(ts, i + 1) - 1] by {
-            if i < k { assert(tle(tkey(ts[i]), tkey(ts[k - 1]))); }
-        }
-    } else {
-        assert(st2.out == st.out);
-        if is_dup(ts, k) {
-            assert(st2 == st);
-            assert(line_segs(ts, k + 1) == line_segs(ts, k));
-            assert(ts[k].is_range == ts[k - 1].is_range);
-        } else {
-            assert(st2.flags == st.flags.push(t.is_range));
-            if k > 0 { assert(line_segs(ts, k + 1) == line_segs(ts, k) + 1); } else { assert(line_segs(ts, 1) == 1); }
-            assert forall|i: int| 0 <= i < k + 1 && !is_dup(ts, i) && ts[i].dst_line == st2.line implies
-                0 <= line_segs(ts, i + 1) - 1 < st2.flags.len() && (#[trigger] ts[i]).is_range == st2.flags[line_segs(ts, i + 1) - 1] by {
-                if i < k { assert(st2.flags[line_segs(ts, i + 1) - 1] == st.flags[line_segs(ts, i + 1) - 1]); }
+            if !is_dup(ts, i) {
+                let p = line_segs(ts, i + 1) - 1;
+                if ts[i].dst_line < st.line { assert(lines2[ts[i].dst_line as int] == lines[ts[i].dst_line as int]); }
+                else { assert(lines2[st.line] == fl); assert(bit_at(st.flags, p) == st.flags[p]); }
             }
         }
     }
+}
+pub proof fn lemma_rmi_step_sameline(ts: Seq<RawToken>, k: int)
+    requires 0 <= k < ts.len(), sorted_tokens(ts), rmi_inv(ts, k), ts[k].dst_line == rmi_after(ts, k).line
+    ensures rmi_inv(ts, k + 1)
+{
+    let st = rmi_after(ts, k); let lines = split_seq(st.out, 59u8);
+    let t = ts[k];
+    let st2 = rmi_after(ts, k + 1);
+    assert(st2 == rmi_step(ts, k, st));
+    lemma_rmi_line(ts, k);
+    lemma_rmi_line(ts, k + 1);
+    if k > 0 { lemma_line_segs_pos(ts, k); }
+    assert(st2.out == st.out);
+    if is_dup(ts, k) {
+        assert(st2 == st);
+        assert(line_segs(ts, k + 1) == line_segs(ts, k));
+        assert forall|i: int| 0 <= i < k + 1 implies #[trigger] rmi_tok_ok(ts, st2, lines, i) by {
+            if i < k { assert(rmi_tok_ok(ts, st, lines, i)); }
+        }
+    } else {
+        assert(st2.flags == st.flags.push(t.is_range));
+        if k > 0 { assert(line_segs(ts, k + 1) == line_segs(ts, k) + 1); } else { assert(line_segs(ts, 1) == 1); }
+        assert forall|i: int| 0 <= i < k + 1 implies #[trigger] rmi_tok_ok(ts, st2, lines, i) by {
+            if i < k {
+                assert(rmi_tok_ok(ts, st, lines, i));
+                if !is_dup(ts, i) && ts[i].dst_line == st.line { let p = line_segs(ts, i + 1) - 1; assert(st2.flags[p] == st.flags[p]); }
+            }
+        }
+    }
+}
+pub proof fn lemma_rmi_step_inv(ts: Seq<RawToken>, k: int)
+    requires 0 <= k < ts.len(), sorted_tokens(ts), rmi_inv(ts, k)
+    ensures rmi_inv(ts, k + 1)
+{
+    if ts[k].dst_line != rmi_after(ts, k).line { lemma_rmi_step_newline(ts, k); } else { lemma_rmi_step_sameline(ts, k); }
 }
 pub proof fn lemma_rmi_inv_all(ts: Seq<RawToken>, k: int)
     requires 0 <= k <= ts.len(), sorted_tokens(ts)
@@ -127,6 +164,7 @@ pub proof fn lemma_range_text_matches_tokens(ts: Seq<RawToken>)
 {
     let n = ts.len() as int;
     lemma_rmi_inv_all(ts, n);
+    lemma_rmi_any(ts, n);
     let st = rmi_after(ts, n); let lines = split_seq(st.out, 59u8);
     let rmis = split_seq(rmi_text(ts), 59u8);
     lemma_rmi_line(ts, n);
@@ -140,14 +178,17 @@ pub proof fn lemma_range_text_matches_tokens(ts: Seq<RawToken>)
             if 0 <= l < rmis.len() { if l < st.line { assert(rmis[l] == lines[l]); } else { assert(rmis[l] == fl); } }
         }
         assert forall|i: int| 0 <= i < ts.len() && !is_dup(ts, i) implies (#[trigger] ts[i]).is_range == bit_at(rmi_bits(rmi_for(rmis, ts[i].dst_line as int)), line_segs(ts, i + 1) - 1) by {
+            assert(rmi_tok_ok(ts, st, lines, i));
             assert(tle(tkey(ts[i]), tkey(ts[n - 1])));
+            let p = line_segs(ts, i + 1) - 1;
             if ts[i].dst_line < st.line { assert(rmis[ts[i].dst_line as int] == lines[ts[i].dst_line as int]); }
-            else { assert(rmis[st.line] == fl); assert(bit_at(st.flags, line_segs(ts, i + 1) - 1) == st.flags[line_segs(ts, i + 1) - 1]); }
+            else { assert(rmis[st.line] == fl); assert(bit_at(st.flags, p) == st.flags[p]); }
         }
     } else {
         assert(rmis == seq![Seq::<u8>::empty()]);
         assert forall|l: int| rmi_valid(#[trigger] rmi_for(rmis, l)) by {}
         assert forall|i: int| 0 <= i < ts.len() && !is_dup(ts, i) implies (#[trigger] ts[i]).is_range == bit_at(rmi_bits(rmi_for(rmis, ts[i].dst_line as int)), line_segs(ts, i + 1) - 1) by {
+            assert(no_range_before(ts, n));
             assert(rmi_for(rmis, ts[i].dst_line as int).len() == 0);
         }
     }
